@@ -1194,7 +1194,7 @@ pub fn check_ig(case: &IgCase, obs: &mut Obs) {
 const PART: PartCfg = PartCfg {
     name: "sampled",
     genome_len: 128,
-    cases_quick: 16000,
+    cases_quick: 32000,
     cases_thorough: 600_000,
     panic: PanicPolicy::Count,
 };
@@ -1202,7 +1202,7 @@ const PART: PartCfg = PartCfg {
 const PART_LIMIT: PartCfg = PartCfg {
     name: "limit",
     genome_len: 96,
-    cases_quick: 8000,
+    cases_quick: 16000,
     cases_thorough: 300_000,
     panic: PanicPolicy::Count,
 };
